@@ -2,6 +2,7 @@ package fx
 
 import (
 	"container/list"
+	"sort"
 	"sync"
 	"sync/atomic"
 
@@ -517,4 +518,188 @@ func (c *c9d) BadC9deferSet(v int) {
 	defer c.mu.Unlock()
 	c.target = v
 	defer c.onSet(v)
+}
+
+// ---- R1: a message received from a channel is read, not rewritten ------------------------------------------------------------
+
+type r1stage struct{ sum int }
+
+func (s *r1stage) GoodR1run(in <-chan []int) {
+	for batch := range in {
+		for _, v := range batch {
+			s.sum += v
+		}
+	}
+}
+
+func (s *r1stage) BadR1run(in <-chan []int) {
+	for batch := range in {
+		sort.Ints(batch)
+		for _, v := range batch {
+			s.sum += v
+		}
+	}
+}
+
+// ---- S8: a FIR is addressed through its entries ---------------------------------------------------------------------------------
+
+type s8FullIntraRequest struct {
+	MediaSSRC uint32
+	Targets   []uint32
+}
+
+func (r *sRec) countGoodS8(st sStats, fir *s8FullIntraRequest) sStats {
+	for _, t := range fir.Targets {
+		if t == r.ssrc {
+			st.Packets++
+		}
+	}
+	return st
+}
+
+func (r *sRec) countBadS8(st sStats, fir *s8FullIntraRequest) sStats {
+	if fir.MediaSSRC == r.ssrc {
+		st.Packets++
+	}
+	return st
+}
+
+// ---- S9: one report, one measurement ----------------------------------------------------------------------------------------------
+
+func recordGoodS9(st sStats, ref uint32) sStats {
+	for i := len(st.sentRefs) - 1; i >= 0; i-- {
+		if st.sentRefs[i] == ref {
+			st.Packets++
+			break
+		}
+	}
+	return st
+}
+
+func recordBadS9(st sStats, ref uint32) sStats {
+	for i := len(st.sentRefs) - 1; i >= 0; i-- {
+		if st.sentRefs[i] == ref {
+			st.Packets++
+		}
+	}
+	return st
+}
+
+// ---- F9: no error of the library's own calls is dropped -------------------------------------------------------------------------
+
+type f9est struct{ closed bool }
+
+func (e *f9est) feed(n int) error {
+	if e.closed {
+		return errReject
+	}
+	return nil
+}
+
+func GoodF9feed(e *f9est, n int) error {
+	if err := e.feed(n); err != nil {
+		return err
+	}
+	return nil
+}
+
+func BadF9feed(e *f9est, n int) error {
+	_ = e.feed(n)
+	return nil
+}
+
+// ---- Y1: Unbind forgets the stream whatever the StreamInfo looks like now --------------------------------------------------
+
+type GoodY1 struct {
+	interceptor.NoOp
+	mu      sync.Mutex
+	streams map[uint32]int
+}
+
+func (g *GoodY1) UnbindLocalStream(info *interceptor.StreamInfo) {
+	g.mu.Lock()
+	defer g.mu.Unlock()
+	if _, ok := g.streams[info.SSRC]; !ok {
+		return
+	}
+	delete(g.streams, info.SSRC)
+}
+
+type BadY1 struct {
+	interceptor.NoOp
+	mu      sync.Mutex
+	streams map[uint32]int
+}
+
+func (g *BadY1) UnbindLocalStream(info *interceptor.StreamInfo) {
+	if len(info.RTCPFeedback) == 0 {
+		return
+	}
+	g.mu.Lock()
+	delete(g.streams, info.SSRC)
+	g.mu.Unlock()
+}
+
+// ---- P4: what a protecting writer forwards, it has buffered -----------------------------------------------------------------
+
+type p4batch struct {
+	mu   sync.Mutex
+	pkts []rtp.Packet
+}
+
+type GoodP4 struct {
+	interceptor.NoOp
+	b *p4batch
+}
+
+func (g *GoodP4) BindLocalStream(info *interceptor.StreamInfo, w interceptor.RTPWriter) interceptor.RTPWriter {
+	ssrc := info.SSRC
+	return interceptor.RTPWriterFunc(func(h *rtp.Header, p []byte, a interceptor.Attributes) (int, error) {
+		if h.SSRC != ssrc {
+			return w.Write(h, p, a)
+		}
+		g.b.mu.Lock()
+		g.b.pkts = append(g.b.pkts, rtp.Packet{Header: h.Clone(), Payload: append([]byte(nil), p...)})
+		full := len(g.b.pkts) == 4
+		if full {
+			g.b.pkts = nil
+		}
+		g.b.mu.Unlock()
+		n, err := w.Write(h, p, a)
+		if full {
+			repair := rtp.Header{SequenceNumber: 1}
+			_, _ = w.Write(&repair, []byte{0}, a)
+		}
+		return n, err
+	})
+}
+
+type BadP4 struct {
+	interceptor.NoOp
+	b *p4batch
+}
+
+func (g *BadP4) BindLocalStream(info *interceptor.StreamInfo, w interceptor.RTPWriter) interceptor.RTPWriter {
+	ssrc := info.SSRC
+	return interceptor.RTPWriterFunc(func(h *rtp.Header, p []byte, a interceptor.Attributes) (int, error) {
+		if h.SSRC != ssrc {
+			return w.Write(h, p, a)
+		}
+		if len(p) == 0 {
+			return w.Write(h, p, a) // "nothing to protect": a hole in the batch
+		}
+		g.b.mu.Lock()
+		g.b.pkts = append(g.b.pkts, rtp.Packet{Header: h.Clone(), Payload: append([]byte(nil), p...)})
+		full := len(g.b.pkts) == 4
+		if full {
+			g.b.pkts = nil
+		}
+		g.b.mu.Unlock()
+		n, err := w.Write(h, p, a)
+		if full {
+			repair := rtp.Header{SequenceNumber: 1}
+			_, _ = w.Write(&repair, []byte{0}, a)
+		}
+		return n, err
+	})
 }
